@@ -23,6 +23,7 @@ EXPLANATION = (
     'behind a comparison of v with the type\'s maximum; each instantiation of the unit conversion guards with the exact tick ratio '
     'of its unit (folded constants compared with the ratio named by the template argument). C18.R5 (forwarding): span, log record '
     'and metric batch take their resource from their provider context.')
+EXPLANATION += ' C18.R2 also requires GetSdkDisabled to return the value the (case-insensitive) boolean reader delivered.'
 NOT_DECIDED = 'exact values for every string; case-insensitive boolean literals beyond the calls made; std::getline tokenisation.'
 
 
